@@ -1,5 +1,6 @@
 import MlModel.Lemmas.PipeAggInst
 import MlModel.Lemmas.PipeAggDtype
+import MlModel.Model.PipeAggCarry
 /-!
 # C02 — witnesses (tests by evaluation, `decide`)
 
@@ -153,5 +154,24 @@ theorem C02_replace_str_promote_witness :
     rfl
   · simp [applyMask, applySeq, rewrap, Except.map, Scalar.toVal, scalarsList, Val.scalars, Except.toOption]
     rfl
+
+/-! ## A carried state restricted to the un-sliced keys (seeded change `C02-m6-carried-state-drops-slice-entries`)
+
+`Model/PipeAggCarry.lean: unslicedOnly` = `{k: state[k] for k in map(MetricKey, agg_fns) if k in state}` in place of
+`__init__`'s filter.  The example stream handed over after its first batch: the real filter keeps all 5 entries (2
+un-sliced + 3 per-slice), the changed one 2; continuing from it, the un-sliced total is still (26, 4) but slice
+`a = 1` restarts from zero and reports (8, 1) instead of (19, 3) — `C02_carried_state` is false of it. -/
+theorem C02_carried_unsliced_only_witness :
+    ((run exPipeline (exStream.take 1)).toOption.map fun st =>
+        ((initFilter exPipeline st).length, AList.keys (unslicedOnly exPipeline st)))
+      = some (5, [⟨["o"], SliceKey.none⟩, ⟨["p", "q"], SliceKey.none⟩]) ∧
+    ((run exPipeline (exStream.take 1)).toOption.bind fun st =>
+        (runFrom exPipeline (unslicedOnly exPipeline st) (exStream.drop 1)).toOption.bind fun st' =>
+          (getResult exPipeline st').toOption.map fun res =>
+            (AList.get? res ⟨"o", SliceKey.none⟩, AList.get? res ⟨"o", ⟨["a"], [1]⟩⟩))
+      = some (some (.one (.nums [(26, 1), (4, 1)])), some (.one (.nums [(8, 1), (1, 1)]))) ∧
+    (carriedResult exPipeline [exStream.take 1, exStream.drop 1]).toOption.bind (AList.get? · ⟨"o", ⟨["a"], [1]⟩⟩)
+      = some (.one (.nums [(19, 1), (3, 1)])) := by
+  decide
 
 end MlModel.C02
